@@ -66,6 +66,40 @@ Definition c07_round1_ok (c : mcfg) (r : mround1) : bool :=
   | _ => true
   end.
 
+(* ---- C08 on the emitted fields (v2-v4): when the well-formed observations of correct observers outnumber all the
+   others, the reported timestamp and benchmark price (v3: bid and ask too) lie between two values they reported ---- *)
+Definition wf_honest (ver : Z) (p : option mobs * bool) : option (Z * Z * Z * Z) :=
+  match p with
+  | (Some o, true) =>
+      if mo_prices_valid o then
+        match decode_int192 (mo_bm o), decode_int192 (mo_bid o), decode_int192 (mo_ask o) with
+        | Ok bm, Ok bid, Ok ask =>
+            if (if ver =? 3 then (bid <=? bm) && (bm <=? ask) else true) &&
+               (if mo_link_valid o then is_ok (decode_int192 (mo_link o)) else true) &&
+               (if mo_native_valid o then is_ok (decode_int192 (mo_native o)) else true)
+            then Some (mo_ts o, bm, bid, ask) else None
+        | Ok bm, _, _ => if (negb (ver =? 3)) &&
+                            (if mo_link_valid o then is_ok (decode_int192 (mo_link o)) else true) &&
+                            (if mo_native_valid o then is_ok (decode_int192 (mo_native o)) else true)
+                         then Some (mo_ts o, bm, 0, 0) else None
+        | _, _, _ => None
+        end
+      else None
+  | _ => None
+  end.
+Definition in_span (v : Z) (l : list Z) : bool := existsb (fun x => x <=? v) l && existsb (fun x => v <=? x) l.
+Definition c08_round_ok (ver : Z) (c : mcfg) (r : mround) : bool :=
+  match rd_out r with
+  | Ok (true, Some rf) =>
+      let hs := omap' (wf_honest ver) (rd_obs r) in
+      if (length (rd_obs r) - length hs <? length hs)%nat then
+        in_span (rf_ts rf) (map (fun q => fst (fst (fst q))) hs) &&
+        in_span (rf_bm rf) (map (fun q => snd (fst (fst q))) hs) &&
+        (if ver =? 3 then in_span (rf_bid rf) (map (fun q => snd (fst q)) hs) && in_span (rf_ask rf) (map snd hs) else true)
+      else true
+  | _ => true
+  end.
+
 (* C09, no previous report: the start is one past the greatest max-finalized value reported (as valid) by at least
    f+1 observers, or the current timestamp when that value is negative ("none exists") *)
 Definition mf_votes (v : Z) (ps : list pao) : nat := length (filter (fun p => snd (p_mfts p) && (fst (p_mfts p) =? v)) ps).
@@ -131,6 +165,8 @@ Definition merc_c07 (c : merc_case) : bool :=
   match c with M234 ver cf rs => forallb (c07_round_ok ver cf) rs | M1 cf rs => forallb (c07_round1_ok cf) rs end.
 Definition merc_c09 (c : merc_case) : bool :=
   match c with M234 ver cf rs => c09_chain ver cf None rs | M1 cf rs => c09_chain1 cf None rs end.
+Definition merc_c08 (c : merc_case) : bool :=
+  match c with M234 ver cf rs => forallb (c08_round_ok ver cf) rs | M1 _ _ => true end.
 Definition merc_c01 (c : merc_case) : bool :=
   match c with M234 _ _ rs => forallb rd_stable rs | M1 _ rs => forallb r1d_stable rs end.
 Definition merc_counts (c : merc_case) : list nat :=
@@ -144,7 +180,8 @@ Definition merc_counts (c : merc_case) : list nat :=
   end.
 Definition sum4 (l : list (list nat)) : list nat :=
   fold_left (fun acc x => match acc, x with [a; b; c; d], [a'; b'; c'; d'] => [a + a'; b + b'; c + c'; d + d']%nat | _, _ => acc end) l [O; O; O; O].
-(* result: mismatching cases; C07 failures; C09 failures; C01 (unstable) ; [rounds; reported; declined; errors] *)
+(* result: mismatching cases; C07 failures; C09 failures; C01 (unstable); C08 failures; [rounds; reported; declined; errors] *)
 Definition merc_eval (cs : list merc_case) :=
   (index_where (fun c => negb (merc_agrees c)) cs, index_where (fun c => negb (merc_c07 c)) cs,
-   index_where (fun c => negb (merc_c09 c)) cs, index_where (fun c => negb (merc_c01 c)) cs, sum4 (map merc_counts cs)).
+   index_where (fun c => negb (merc_c09 c)) cs, index_where (fun c => negb (merc_c01 c)) cs,
+   index_where (fun c => negb (merc_c08 c)) cs, sum4 (map merc_counts cs)).
